@@ -108,6 +108,12 @@ impl Composer {
     fn append_witness_internal(&mut self, witness: BlsScalar) -> Witness {
         let n = self.witnesses.len();
 
+        // Verification hook: an installed per-thread override replaces the
+        // value of the n-th allocated witness, so that everything the
+        // gadgets derive from it on the host is re-propagated.
+        #[cfg(feature = "verif")]
+        let witness = crate::verif::forged_witness(n, witness);
+
         // Get a new Witness from the permutation
         self.perm.new_witness();
 
